@@ -434,7 +434,7 @@ static void apply_set(int k) {
 		bidib_set_train_peripheral("train1", "horn", 1, "master"); settle();
 	} else if (k == 1) {      /* S1 -> S2 */
 		UP(B_MASTER, MSG_BM_FREE, 0); UP(B_MASTER, MSG_BM_MULTIPLE, 0, 16, 0x02, 0x02);
-		UP(B_MASTER, MSG_BM_ADDRESS, 1, 0x23, 0x81); UP(B_MASTER, MSG_BM_ADDRESS, 9, 0x23, 0x81, 0x99, 0x09);
+		UP(B_MASTER, MSG_BM_ADDRESS, 1, 0x23, 0x81, 0x23, 0x81); UP(B_MASTER, MSG_BM_ADDRESS, 9, 0x23, 0x81, 0x99, 0x09);     /* seg2 lists train1 twice (locomotive and a function decoder with the same address): unusual, but a state the getters must render well-formed */
 		UP(B_OC1, MSG_BM_OCC, 0); UP(B_OC1, MSG_BM_ADDRESS, 0, 0x02, 0x03);
 		UP(B_MASTER, MSG_BM_ADDRESS, 0, 0x02, 0x83);       /* an address report for a segment that was never reported occupied (the reports overtook each other / the occupancy report was lost) */
 		UP(B_MASTER, MSG_BM_CURRENT, 1, 0xFE); UP(B_MASTER, MSG_BM_CURRENT, 0, 0xFF); UP(B_MASTER, MSG_BM_CURRENT, 9, 0x50);
